@@ -918,6 +918,13 @@ func (s *vfSigned) vfSigVerdict(m *vfC06Req) (vfVerdict, string) {
 			return vfReject, "authorization"
 		}
 	}
+	if s.Plan.Presign {
+		if a, ok := m.get("Authorization"); ok && a != "" && s.Verdict == vfAccept {
+			// a presigned URL together with an Authorization header of another scheme: the scheme
+			// this one is modelled on (AWS) refuses two mechanisms at once, the docs are silent
+			return vfEither, "presigned request also carries an Authorization header"
+		}
+	}
 	return s.Verdict, "unchanged covered parts"
 }
 
